@@ -376,6 +376,7 @@ CHECKS['C20']['jobs'] += _mode_jobs('MODE_STATUS', [9, 5], extra=['SMART_TERMINA
 CHECKS['C14']['jobs'].append(dict(name='callers', harness='c12_manifest.cc', units=_PARSE_UNITS + ['disk_interface'], defines=['MODE_SPELLINGS'], reach=['other-spelling', 'canonical-spelling', 'dyndep-file'],
     bounds='6 spellings of one path x 9 places where a path enters ninja (explicit / implicit / order-only input, validation, default, output, implicit output, implicit input and statement of a dyndep file) x {LF, CRLF}'))
 CHECKS['C14']['level_text'] += ' A third job checks the places where a path enters ninja (every position of a manifest statement, default, dyndep file): whatever the spelling, the path must resolve to the one Node of the canonical name; depfile and deps-log paths are covered by C10/depfile_noncanonical_path, command-line targets by the C19 *_tools jobs (the target is also spelled ./name).'
+CHECKS['C16']['jobs'] += _mode_jobs('MODE_SCHED', [27], extra=['WITH_FAILURES'], suffix='_rspfile_fail', reach=('built', 'rspfile-kept'), bounds='response files with any subset of commands failing, -k in {1,2}, -j in {1,2,3}: removed after success, kept after failure')
 
 # ---- the real process layer (RealCommandRunner, SubprocessSet, Subprocess, PosixJobserverClient) over the modelled operating system of harness/osmodel.h
 _OS_WRAP = ['pipe', 'close', 'read', 'write', 'open', 'fstat', 'sigemptyset', 'sigaddset', 'sigismember', 'sigprocmask', 'sigpending', 'sigaction', 'posix_spawn_file_actions_init', 'posix_spawn_file_actions_destroy',
